@@ -570,7 +570,17 @@ class Parser:
     def parse_type_and_quals(self, cdecl):
         ast, macros = self._parse('void __dummy(\n%s\n);' % cdecl)[:2]
         assert not macros
-        exprnode = ast.ext[-1].type.args.params[0]
+        decl = ast.ext[-1]
+        if not (isinstance(decl, pycparser.c_ast.Decl) and
+                decl.name == '__dummy' and
+                isinstance(decl.type, pycparser.c_ast.FuncDecl) and
+                isinstance(decl.type.type, pycparser.c_ast.TypeDecl) and
+                decl.type.args is not None and
+                len(decl.type.args.params) == 1):
+            raise CDefError("not a single C type: %r" % (cdecl,))
+        exprnode = decl.type.args.params[0]
+        if (getattr(exprnode, 'name', None) or '').startswith('__dotdotdot'):
+            raise CDefError("misplaced '...' in %r" % (cdecl,))
         if isinstance(exprnode, pycparser.c_ast.ID):
             raise CDefError("unknown identifier '%s'" % (exprnode.name,))
         return self._get_type_and_quals(exprnode.type)
